@@ -11,7 +11,54 @@ let print_dec oc (r : inst0 list res) =
   | Panic -> output_string oc "DEC PANIC\n"
   | OutOfFuel -> output_string oc "DEC OUTOFFUEL\n"
 
-let run_dom oc lines =
+(* the written instances in document order, or None when the root selection is degenerate (unknown label, duplicate, nested) *)
+let written_order (c : xcase) : inst0 list option =
+  let find l = List.find_opt (fun i -> i.i_ref = l) c.nodes in
+  let roots = c.roots in
+  let distinct = List.length (List.sort_uniq compare (List.map int_of_n roots)) = List.length roots in
+  if not distinct || List.exists (fun r -> find r = None) roots then None
+  else begin
+    let rec above l = match find l with
+      | Some i -> int_of_n i.i_parent0 <> 0 && (List.mem i.i_parent0 roots || above i.i_parent0)
+      | None -> false in
+    if List.exists above roots then None
+    else begin
+      let rec walk l = match find l with
+        | Some i -> i :: List.concat_map (fun k -> if k.i_parent0 = l then walk k.i_ref else []) c.nodes
+        | None -> [] in
+      Some (List.concat_map walk roots)
+    end
+  end
+
+(* C05 writer direction, spec side: the document (as the events of the real parser = the model's channel output, which the
+   correspondence ties together) is decoded by the decoder written from docs/xml.md and compared with the source DOM *)
+let spec_check (sc : out_channel) (c : xcase) (revs : revent list) : unit =
+  if written_order c = None then output_string sc "SPEC SKIP\n" else
+  match tree_of_events revs with
+  | None -> output_string sc "SPEC DIFF the events do not form an element tree\n"
+  | Some doc ->
+    (match xspec_decode doc with
+     | Ok f ->
+       if not (refs_resolved f) then output_string sc "SPEC DIFF a SharedString key is not defined by the dictionary\n"
+       else (match written_order c with
+           | None -> output_string sc "SPEC SKIP\n"
+           | Some src ->
+             let got = f.sf_insts in
+             if List.length got <> List.length src then
+               Printf.fprintf sc "SPEC DIFF the spec decoder finds %d Items, the DOM has %d written instances\n" (List.length got) (List.length src)
+             else begin
+               let has_name_prop = List.exists (fun i -> List.exists (fun (k, _) -> k = Mvalue.bytes_of_hex "4e616d65") i.i_props0) src in
+               let bad = List.find_opt (fun (g, s) ->
+                   g.si_class <> s.i_class0 || (not has_name_prop && si_name g <> Some s.i_name0)) (List.combine got src) in
+               match bad with
+               | Some (g, s) -> Printf.fprintf sc "SPEC DIFF Item class %s name %s, DOM class %s name %s\n" (Mvalue.hex_of_bytes g.si_class)
+                                  (match si_name g with Some n -> Mvalue.hex_of_bytes n | None -> "?") (Mvalue.hex_of_bytes s.i_class0) (Mvalue.hex_of_bytes s.i_name0)
+               | None -> output_string sc "SPEC OK\n"
+             end)
+     | Err code -> Printf.fprintf sc "SPEC DIFF the document violates docs/xml.md (spec error %d)\n" (int_of_n code)
+     | _ -> output_string sc "SPEC DIFF spec decoder did not terminate normally\n")
+
+let run_dom oc sc lines =
   let c = parse_case lines "" in
   let e = env_of c in
   match xml_encode e (ebeh (opt c "enc" "")) c.nodes c.roots with
@@ -23,6 +70,7 @@ let run_dom oc lines =
     (match channel wevs with
      | Ok revs ->
        List.iter (fun r -> output_string oc (revent_line r ^ "\n")) revs;
+       if opt c "stream" "" <> "illegal" then spec_check sc c revs;
        print_dec oc (xml_decode e (dbeh (opt c "dec" "")) revs)
      | _ -> output_string oc "REVENTS ERR\nDEC -\n")
 
@@ -34,16 +82,18 @@ let run_text oc lines =
 
 let run path out =
   let oc = open_out out in
+  let sc = open_out (out ^ ".spec") in
   List.iter (fun (id, lines) ->
     Printf.fprintf oc "case %s\n" id;
+    Printf.fprintf sc "case %s\n" id;
     (try
        (match lines with
-        | "kind dom" :: _ -> run_dom oc lines
+        | "kind dom" :: _ -> run_dom oc sc lines
         | "kind text" :: _ -> run_text oc lines
         | _ -> output_string oc "BADCASE kind\n")
      with Failure m -> Printf.fprintf oc "BADCASE %s\n" m);
-    output_string oc "end\n") (read_cases path);
-  close_out oc
+    output_string oc "end\n"; output_string sc "end\n") (read_cases path);
+  close_out oc; close_out sc
 
 let cli = function
   | "xmlfile" :: path :: out :: _ -> run path out; true
